@@ -335,6 +335,16 @@ func genC09(t *rapid.T) c09Case {
 			Lines: []vLine{{Kind: vkEntry, Name: "x", Num: "1", L: plain}, {Kind: vkEntry, Name: "y", Num: "2", L: plain}}}
 		s.Book.Recs = append([]vRec{first}, s.Book.Recs...)
 	}
+	if kb > 0 && rapid.IntRange(0, 5).Draw(t, "emptyjournal") == 0 {
+		// a journal without a single record (empty, or blank lines and comments only) beside a book with malformed lines:
+		// every command that reads the book still has to fail on it
+		s.Log = vDoc{}
+		for k := rapid.IntRange(0, 3).Draw(t, "emptyjournalpre"); k > 0; k-- {
+			s.Log.Pre = append(s.Log.Pre, vGenFillerLine(t, lo, "emptyjournalline"))
+		}
+		s.Days = nil
+		kl = 0
+	}
 	c09Plant(t, &s.Book, kb, names, "pb")
 	c09Plant(t, &s.Log, kl, names, "pl")
 	// one file in eight that holds malformed lines ends in a comment line longer than the line buffer (the read fails
